@@ -347,4 +347,66 @@ theorem mplDefault_ok_inv (f : Fld) (o : Opts) (calls : List PlotCall) (h : mplD
                     exact ⟨lab, hm, hl, Or.inr (Or.inr ⟨h3, c, cs, cv, hc, hcs, hcv, h.symm⟩)⟩
           · cases h
 
+/-! ## auxiliary fields on another resolution -/
+
+theorem resample_data (g : Fld) (n : List Int) (h : Fld) (hr : C07.resample g n = .ok h) :
+    ∃ m, Mesh.mkN? g.mesh.region (n.map Int.toNat) = .ok m ∧ h.mesh = m ∧
+      h.data = C07.resampleNDA g.mesh m g.data := by
+  unfold C07.resample at hr
+  split at hr
+  · cases hr
+  · split at hr
+    · cases hr
+    · split at hr
+      · cases hr
+      · rename_i m hm
+        split at hr
+        · cases hr
+        · unfold C07.mkFld at hr
+          split at hr
+          · cases hr
+          · injection hr with hr
+            subst hr
+            exact ⟨m, hm, rfl, rfl⟩
+
+theorem mkN_ok_inv (r : Region) (n : List Nat) (m : Mesh) (h : Mesh.mkN? r n = .ok m) :
+    m.region = r ∧ m.n = n := by
+  unfold Mesh.mkN? at h
+  split at h
+  · cases h
+  · split at h
+    · cases h
+    · split at h
+      · cases h
+      · injection h with h
+        subst h
+        exact ⟨rfl, rfl⟩
+
+/-! ## closed examples used by `Props/C20.lean` for non-vacuity -/
+
+def exRegion : Region :=
+  { pmin := [0, 0], pmax := [4, 6], dims := ["x", "y"], units := ["m", "m"], tol := 1/1000000000000 }
+def exMesh : Mesh := { region := exRegion, n := [2, 3], bc := "", subs := [] }
+/-- scalar field with values 1..6 (C order), cell (0, 2) invalid -/
+def exS : Fld :=
+  { mesh := exMesh, nvdim := 1, data := NDA.ofList [2, 3] [[1], [2], [3], [4], [5], [6]] [],
+    valid := NDA.ofList [2, 3] [true, true, false, true, true, true] false,
+    vdims := none, vmap := [], unit := none }
+/-- 3-component field, labels a b c, `a ↦ y`, `b ↦ x`, `c ↦ z` -/
+def exV : Fld :=
+  { mesh := exMesh, nvdim := 3,
+    data := NDA.ofList [2, 3] [[0, 1, 2], [3, 4, 5], [6, 7, 8], [9, 10, 11], [12, 13, 14], [15, 16, 17]] [],
+    valid := NDA.ofList [2, 3] [true, true, false, true, true, true] false,
+    vdims := some ["a", "b", "c"], vmap := [("a", "y"), ("b", "x"), ("c", "z")], unit := none }
+/-- filter that is non-zero everywhere -/
+def exOnes : Fld := { exS with data := NDA.ofList [2, 3] [[1], [1], [1], [1], [1], [1]] [],
+                               valid := NDA.ofList [2, 3] [true, true, true, true, true, true] false }
+/-- a filter on 4 × 3 cells of the same region, zero in its cells with first index 0 and 1 -/
+def exFine : Fld :=
+  { exS with mesh := { exMesh with n := [4, 3] },
+             data := NDA.ofList [4, 3] [[0], [0], [0], [0], [0], [0], [1], [1], [1], [1], [1], [1]] [],
+             valid := NDA.ofList [4, 3] (List.replicate 12 true) false }
+
+theorem exMesh_inv : exMesh.Inv := mesh_inv_of_invB exMesh (by decide +kernel)
+
 end DFV.C20
